@@ -225,9 +225,44 @@ class Field:
         self.first_len, self.cont_lens, self.ok = first_len, cont_lens, ok
 
 
+# header fields as they occur in real traffic, none of which takes part in framing, limits, content or text decoding:
+# whatever a property says must hold with any of them present (eleventh round: behaviour made to depend on Connection,
+# Expect, Upgrade, Content-Range, Content-Type: application/gzip, ETag, ...)
+REALISTIC_FIELDS = [
+    (b"Connection", b"close"), (b"Connection", b"keep-alive"), (b"Connection", b"Upgrade"), (b"Connection", b"keep-alive, close"), (b"connection", b"Close"),
+    (b"Connection", b"TE, close"), (b"Proxy-Connection", b"close"), (b"Keep-Alive", b"timeout=5, max=100"),
+    (b"Upgrade", b"h2c"), (b"Upgrade", b"websocket"), (b"Upgrade", b"h2,h2c"), (b"Expect", b"100-continue"), (b"expect", b"100-Continue"), (b"TE", b"trailers"),
+    (b"Content-Range", b"bytes 0-9/100"), (b"Content-Range", b"bytes 0-0/2"), (b"Content-Range", b"bytes 0-99/100"), (b"Content-Range", b"bytes */100"),
+    (b"Content-Range", b"bytes 0-4/*"), (b"Range", b"bytes=0-9"), (b"Accept-Ranges", b"bytes"), (b"If-Range", b"\"abc\""),
+    (b"Content-Type", b"application/gzip"), (b"Content-Type", b"application/x-gzip"), (b"Content-Type", b"application/octet-stream"), (b"Content-Type", b"application/json"),
+    (b"Content-Type", b"multipart/byteranges; boundary=x"), (b"Content-Type", b"application/x-gunzip; x=y"),
+    (b"ETag", b"\"abc\""), (b"ETag", b"W/\"abc\""), (b"Vary", b"Accept-Encoding"), (b"Cache-Control", b"no-transform"), (b"Cache-Control", b"no-store, max-age=0"),
+    (b"Content-MD5", b"Q2hlY2sgSW50ZWdyaXR5IQ=="), (b"Digest", b"sha-256=abc"), (b"Content-Disposition", b"attachment; filename=\"a.gz\""), (b"Content-Location", b"/a.gz"),
+    (b"Content-Language", b"en"), (b"Last-Modified", b"Tue, 29 Sep 2026 10:00:00 GMT"), (b"Date", b"Tue, 29 Sep 2026 10:00:00 GMT"), (b"Server", b"nginx/1.25"),
+    (b"Host", b"example.com"), (b"Host", b"example.com:80"), (b"Accept-Encoding", b"gzip, deflate"), (b"Accept-Encoding", b"identity"), (b"X-Content-Type-Options", b"nosniff"),
+    (b"Content-Transfer-Encoding", b"binary"), (b"Warning", b"214 - \"Transformation applied\""), (b"Age", b"0"), (b"Retry-After", b"1"), (b"Location", b"/"),
+    (b"Set-Cookie", b"a=b; Path=/"), (b"WWW-Authenticate", b"Basic realm=\"x\""), (b"Allow", b"GET, HEAD"), (b"Link", b"</s.css>; rel=preload"), (b"Alt-Svc", b"h2=\":443\""),
+    (b"Strict-Transport-Security", b"max-age=1"), (b"Sec-WebSocket-Accept", b"x"), (b"Sec-WebSocket-Key", b"dGhlIHNhbXBsZSBub25jZQ=="), (b"Via", b"1.1 proxy"),
+    (b"Authorization", b"Basic eA=="), (b"Cookie", b"a=b"), (b"User-Agent", b"curl/8.0"), (b"Accept", b"*/*"), (b"If-None-Match", b"\"abc\""), (b"Origin", b"null"),
+    (b"Referer", b"http://a/"), (b"Forwarded", b"for=1.2.3.4"), (b"X-Forwarded-For", b"1.2.3.4"), (b"Pragma", b"no-cache"), (b"Trailer", b"X-T"), (b"Max-Forwards", b"0"),
+    (b"HTTP2-Settings", b"AAMAAABkAAQAAP__"), (b"Priority", b"u=1"), (b"Accept-Charset", b"utf-8"), (b"Content-Script-Type", b"text/javascript"),
+]
+
+
+def realistic_fields(rng, k=1, coded_len=None):
+    """k fields of the corpus; with `coded_len` also Content-Range fields that describe the body as the leading part of more"""
+    out = [rng.pick(REALISTIC_FIELDS) for _ in range(k)]
+    if coded_len is not None and rng.chance(1, 2):
+        n = max(coded_len, 1)
+        out.append((rng.pick([b"Content-Range", b"content-range"]), b"bytes 0-%d/%d" % (n - 1, rng.pick([n + 1, n + 100, 2 * n + 7, 10_000_000]))))
+    return out
+
+
 def gen_field(rng, name=None, value=None, good_p=0.9, fold_p=0.15):
     """one header field -> Field; `value` is the logical (unfolded, trimmed) value when ok"""
     good = rng.random() < good_p
+    if name is None and value is None and rng.chance(1, 4):
+        name, value = rng.pick(REALISTIC_FIELDS)
     if name is None:
         name = rng.pick(NEUTRAL_NAMES) if rng.chance(7, 8) else rand_token(rng)
     if value is None:
